@@ -567,6 +567,25 @@ def _exec_family(case, ctx, mon):
                             "%d (input had %d variables, %d mentioned); "
                             "params=%r family=%s %r" %
                             (n2, want, N, mx, tp, name, p))
+        # the result owns its variables: the next one allocated on it is
+        # fresh there, and the input formula does not grow with it
+        if hasattr(G, "new_variable"):
+            rv = call(G.new_variable)
+            if rv[0] == "exc":
+                raise Violation("C10/allocation-on-result-failed/%s/%s" %
+                                (tname, exc_signature(rv[1], REPO)),
+                                "%r after %s on family %s" % (rv[1], tname,
+                                                              name))
+            _raise_monitor(mon, "allocation-after:" + tname)
+            if rv[1] != n2 + 1 or G.number_of_variables() != n2 + 1 or \
+                    F.number_of_variables() != N:
+                raise Violation(
+                    "C10/allocation-on-result/%s" % tname,
+                    "new_variable() on the result of %s gave %r; the result "
+                    "declares %d variables (had %d), the input %d (had %d); "
+                    "family=%s %r params=%r" %
+                    (tname, rv[1], G.number_of_variables(), n2,
+                     F.number_of_variables(), N, name, p, tp))
         F = G
         mx = mx2
         applied += 1
